@@ -254,6 +254,12 @@ func panicSites(p *Program, fn *ssa.Function, unproven map[string]string) (sites
 					proven++
 				}
 			case *ssa.Lookup:
+				if mt, isMap := x.X.Type().Underlying().(*types.Map); isMap && !x.CommaOk {
+					// m[k].f / *m[k] with a pointer-valued map: nil dereference when the key is absent
+					if _, isPtr := mt.Elem().Underlying().(*types.Pointer); isPtr && lookupDereferenced(x) {
+						sites = append(sites, PanicSite{fn, in, "nilentry", "entry " + T(x.X).String() + "[" + T(x.Index).String() + "] dereferenced without a presence check", pos(x)})
+					}
+				}
 				if _, isMap := x.X.Type().Underlying().(*types.Map); !isMap {
 					if _, kept := unproven[pos(x)]; kept {
 						sites = append(sites, PanicSite{fn, in, "index", "string index " + T(x.X).String(), pos(x)})
@@ -291,4 +297,29 @@ func panicSites(p *Program, fn *ssa.Function, unproven map[string]string) (sites
 		}
 	}
 	return sites, proven
+}
+
+// lookupDereferenced: the pointer a map lookup returned is dereferenced directly (field
+// access, load, or a call of a method that dereferences its receiver).
+func lookupDereferenced(x *ssa.Lookup) bool {
+	if x.Referrers() == nil {
+		return false
+	}
+	for _, r := range *x.Referrers() {
+		switch y := r.(type) {
+		case *ssa.FieldAddr:
+			if y.X == x {
+				return true
+			}
+		case *ssa.UnOp:
+			if y.Op == token.MUL && y.X == x {
+				return true
+			}
+		case ssa.CallInstruction:
+			if g := y.Common().StaticCallee(); g != nil && len(y.Common().Args) > 0 && y.Common().Args[0] == x && y.Common().Signature().Recv() != nil && methodDerefsReceiver(g) {
+				return true
+			}
+		}
+	}
+	return false
 }
